@@ -114,6 +114,21 @@ pub fn base_kind(b: &Base) -> &'static str {
     }
 }
 
+/// class of an r-value out argument from its rendered shape `Cast(<inner>:<base>:<L|R>):<base>:<L|R>`
+fn out_arg_cast_class(shape: &str) -> &'static str {
+    let Some(rest) = shape.strip_prefix("Cast(") else { return "not-a-cast" };
+    let Some(pos) = rest.rfind("):") else { return "not-a-cast" };
+    let inner = &rest[..pos];
+    let outer = &rest[pos + 2..];
+    let base_of = |s: &str| -> String {
+        let mut parts: Vec<&str> = s.rsplitn(3, ':').collect();
+        // parts = [L|R, base, rest...]
+        let b = if parts.len() >= 2 { parts.remove(1) } else { s };
+        b.trim_start_matches("const ").trim_end_matches('1').to_string()
+    };
+    if base_of(inner) == base_of(&format!("x:{}", outer)) { "cast-same-element" } else { "cast-converts-element" }
+}
+
 fn ty_name(t: &Ty) -> String {
     format!("{}{}:{}", if t.konst { "const " } else { "" }, base_name(&t.base), if t.lv { "L" } else { "R" })
 }
@@ -787,7 +802,11 @@ impl<'a> Cx<'a> {
                     if p.input_modifier != InputModifier::In {
                         self.see("call:out-param");
                         if !ta.lv {
-                            self.report("ir|out-arg-rvalue".into(), format!("r-value of type {} passed to {:?} parameter {} of {}", ty_name(ta), p.input_modifier, k, fname));
+                            // a cast between a scalar and a one-component vector of the same element type is the recorded
+                            // finding; a cast that also converts the element type is a different defect
+                            let class = out_arg_cast_class(&a.as_ref().map(|x| x.1.clone()).unwrap_or_default());
+                            let sig = if class == "cast-same-element" { "ir|out-arg-rvalue".to_string() } else { format!("ir|out-arg-rvalue|{}", class) };
+                            self.report(sig, format!("r-value of type {} passed to {:?} parameter {} of {}", ty_name(ta), p.input_modifier, k, fname));
                         } else if ta.konst {
                             self.report("ir|out-arg-const".into(), format!("const value of type {} passed to {:?} parameter {} of {}", ty_name(ta), p.input_modifier, k, fname));
                         }
